@@ -325,6 +325,14 @@ def run(rep: Report, repo: Repo, tier: str) -> None:
     from . import fsrules
     with rep.isolated():
         fsrules.rule_isolation(rep, repo, "C16-R7")
+    # "the value in effect": the consumers read the option they are documented to read
+    from . import pathterms, protocol
+    with rep.isolated():
+        protocol.rule_own_flag(rep, repo, "C16-R8")
+    with rep.isolated():
+        pathterms.rule_title_terms(rep, repo, "C16-R9", "C16-R9", "C16-R9")
+    with rep.isolated():
+        rule_writer_settings(rep, repo, "C16-R10")
 
 
 def rule_output_dir_resolution(rep: Report, repo: Repo, rule: str) -> None:
@@ -502,3 +510,26 @@ def rule_cli_defaults(rep: Report, repo: Repo, rule: str) -> None:
                       f"-s file and the user config, so `{dest.value}` can no longer be configured there",
                       witness=f"-s file sets {dest.value}, no {flags[0] if flags else ''} on the command line")
     rep.floor(rule, 4, "settings-bound CLI options")
+
+
+def rule_writer_settings(rep: Report, repo: Repo, rule: str) -> None:
+    """Every writer is built with the settings in effect: an RSTWriter / Directive constructed without `settings=` falls back to
+    the default argument `Settings()`, i.e. to the built-in header characters whatever the layered configuration says."""
+    from ..model import HAND_WRITTEN
+    rep.rule(rule, "every construction of RSTWriter (or a subclass) in the package passes settings=<settings in effect>; none "
+                   "relies on the default argument Settings()")
+    writer_classes = {c.name for c in repo.classes.values() if c.module == "cminx.rstwriter"
+                      and any(k.name == "RSTWriter" for k in repo.mro(c.name))}
+    n = 0
+    for mod in HAND_WRITTEN:
+        m = repo.module(mod)
+        for c in ast.walk(m.tree):
+            if isinstance(c, ast.Call) and call_name(c).split(".")[-1] in writer_classes:
+                n += 1
+                kw = next((k for k in c.keywords if k.arg == "settings"), None)
+                splat = any(k.arg is None for k in c.keywords)
+                fresh = kw is not None and isinstance(kw.value, ast.Call) and call_name(kw.value).split(".")[-1] == "Settings"
+                rep.check((kw is not None and not fresh) or splat, rule, m.relpath, norm(c)[:70],
+                          "the writer is constructed without the settings in effect: its headings use the default characters instead "
+                          "of the configured rst.headers", witness="rst: {headers: ['=', '-']} in a -s file, directory input with -o")
+    rep.floor(rule, 3, "writer constructions")
